@@ -141,6 +141,19 @@ CLAIMED["C20"] = dict(
     note=TRUST + "; Rationals.tla; math.pi/math.acos; non-lattice arcs, radar inversion and seeded IOD are relations between implementation functions",
     engine="orbit-lattice")
 
+CLAIMED["C04"] = dict(
+    text=("On an exact integer lattice (vectors in (-K..K)^3, quarter-turn angles, sites on the quarter-turn grid) the real cross-product "
+          "matrix, elementary rotations and their derivatives, the SEZ/RAZEL conventions and the RSW/NTW triads equal what TLC computes "
+          "from Lattice3.tla, which also checks their algebraic identities as invariants. Every closed walk of length <= 6 in the frame "
+          "graph (FrameGraph.tla, 22 conversion edges with rigid/date/site attributes) is executed with the real conversion functions on "
+          "points from the surface to 10 radii at dates across the bundled EOP span: it must return its start coordinates, keep "
+          "constellation distances and norms on rigid edges and put ecef2lla on the WGS-84 ellipsoid. EarthClock.tla validates the "
+          "day-of-year of every day 2014-2022 and recorded rotation advances across every midnight, minute, hour, month, leap-day and "
+          "year boundary (elapsed UT1 within 2e-9 rad; jumps only at the inserted leap seconds)."),
+    ref="5 C04", technique="TLA+ exact-lattice spec Lattice3.tla + FrameGraph.tla closed walks + EarthClock.tla; spec->impl replay and impl->spec record validation",
+    note=TRUST + "; two-line ellipsoid and spherical definitions in the driver; independent parse of the EOP table (the per-day EOP lookup is taken as designed: the expected advance includes the table's own UT1 step); absolute sidereal orientation is not decided",
+    engine="frames")
+
 NOT_APPLICABLE = {
     "C13": ("an explicit TLA+ specification cannot evaluate a degree-20 spherical-harmonic gradient or analytic ephemerides; "
             "the property IS equality with an independent numerical reference, which would be differential testing, a "
